@@ -1,6 +1,6 @@
 (* Props/C04.v -- property C04: messages reach exactly the transaction RFC 3261 sec. 17 matching prescribes *)
 From Coq Require Import List NArith Bool.
-From EZK Require Import Lib.Bytes Gen.Tables Model.C04 Proofs.C04.
+From EZK Require Import Model.Forms8 Proofs.Forms8 Lib.Bytes Gen.Tables Model.C04 Proofs.C04.
 Import ListNotations.
 Open Scope N_scope.
 
@@ -94,3 +94,15 @@ Proof. exact late_registration_drops. Qed.
 
 Theorem C04_cookie : branch_cookie = B"z9hG4bK".
 Proof. reflexivity. Qed.
+
+(* "the same top-Via branch": the key is made from the first Via value whatever stands below it; made from the last one, two requests a
+   proxy forked to us (different top branch, same bottom Via) would be one transaction *)
+Theorem C04_key_top_via_guard : key_from_top_via = true.
+Proof. reflexivity. Qed.
+
+Theorem C04_lower_vias_play_no_part : key_from_top_via = true ->
+  forall v rest rest', pick_via (v :: rest) = pick_via (v :: rest') /\ pick_via (v :: rest) = Some v.
+Proof. exact pick_via_here. Qed.
+
+Theorem C04_bottom_via_refuted : forall a b c : Forms8.via, pick_via_form false [a; c] = pick_via_form false [b; c].
+Proof. exact pick_bottom_merges. Qed.
